@@ -29,14 +29,18 @@ structure Obs where
   ofType : List Id
   get : Shape
   iterAfterGet : List Id      -- the getter never modifies the container
+  lenAfterGet : Nat           -- `len(container)` after the getter
   iterAfterRemove : List Id
+  lenAfterRemove : Nat        -- `len(container)` after the bulk removal
   deriving DecidableEq
 
 def expected (isInst meets : Id → Bool) (l : List Id) : Obs :=
   { ofType := specOfType isInst l
     get := specGet isInst meets l
     iterAfterGet := l
-    iterAfterRemove := specRemove isInst meets l }
+    lenAfterGet := l.length
+    iterAfterRemove := specRemove isInst meets l
+    lenAfterRemove := (specRemove isInst meets l).length }
 
 def holds (isInst meets : Id → Bool) (l : List Id) (o : Obs) : Bool :=
   decide (o = expected isInst meets l)
@@ -46,7 +50,9 @@ def observe (F : Facts) (s : Heap) (fuel : Nat) : Obs :=
   { ofType := ofType F s fuel
     get := getOfType F s fuel
     iterAfterGet := iter s fuel
-    iterAfterRemove := iter (removeOfType F s fuel) fuel }
+    lenAfterGet := (iter s fuel).length
+    iterAfterRemove := iter (removeOfType F s fuel) fuel
+    lenAfterRemove := (iter (removeOfType F s fuel) fuel).length }
 
 /-! The property's wording, as consequences of `specRemove` (proved in Props/C08). -/
 
